@@ -5,6 +5,7 @@
 From Coq Require Import List String ZArith Bool.
 Import ListNotations.
 Require Import Verif.Common.LockEv Verif.Generated.SourceFacts.
+Require Verif.Model.C04.
 Open Scope string_scope.
 
 (* 85 % for merges, 75 % for concurrent calls, integer arithmetic n*T/100 on nanoseconds *)
@@ -13,4 +14,10 @@ Lemma merge_timeout_ok : merge_timeout_lits = [85; 100]%Z /\
 Proof. split; reflexivity. Qed.
 Lemma concurrent_timeout_ok : concurrent_timeout_lits = [75; 100]%Z /\
   concurrent_timeout_expr = "time.Duration(75*remote.Timeout.Nanoseconds()/100) * time.Nanosecond".
+Proof. split; reflexivity. Qed.
+
+(* the tie to the C04 model: the factors the deadline theorems are instantiated with *)
+Lemma timeouts_match_model :
+  merge_timeout_lits = [Verif.Model.C04.fm_num Verif.Model.C04.lura_factors; Verif.Model.C04.fm_den Verif.Model.C04.lura_factors] /\
+  concurrent_timeout_lits = [Verif.Model.C04.fc_num Verif.Model.C04.lura_factors; Verif.Model.C04.fc_den Verif.Model.C04.lura_factors].
 Proof. split; reflexivity. Qed.
